@@ -111,6 +111,8 @@ class Engine:
         self.call_hooks = []   # f(eng, st, fr, bb, base, args, ev, t) before a non-inlined call is modelled
         self.post_call_hooks = []  # f(eng, st, fr, bb, base, args, ev, t) on each outcome state after the call
         self.edge_hooks = []   # f(eng, st, fr, bb, target, cond) after a switch edge has been taken
+        self.inlined_nodes = set()
+        self.back_via_call = set()
         self.edge_conds = {}
         self.loop_backs = {}
         self.loop_heads = {}
@@ -291,6 +293,12 @@ class Engine:
 
     def project(self, term, rest, ti):
         prog = self.prog
+        # projections of projections are flattened, so that a value reached through `?` / moves has
+        # the same name as when it is matched in place
+        while isinstance(term, tuple) and len(term) == 3 and term[0] == "proj":
+            rest = tuple(term[2]) + tuple(rest)
+            term = term[1]
+        rest = tuple(rest)
         if rest and rest[-1] == "$len":
             return I(lin.var(self.named(("len", term, rest[:-1]), (0, ISIZE_MAX))))
         if rest and rest[-1] == "$discr":
@@ -1009,7 +1017,7 @@ class Engine:
         def run_block(bb, st, prev):
             if self.record:
                 self.nodes[(fr.id, bb)] = self.nodes.get((fr.id, bb), 0) + 1
-                if prev is not None:
+                if prev is not None and (fr.id, prev) not in self.inlined_nodes:
                     self.edges.add(((fr.id, prev), (fr.id, bb), "flow"))
             for (nb, ns) in self.exec_block(fr, bb, st):
                 if nb == "return":
@@ -1036,8 +1044,10 @@ class Engine:
             items = pending.pop(bb)
             if bb == head:
                 for st, prev in items:
-                    if self.record and prev is not None:
+                    if self.record and prev is not None and (fr.id, prev) not in self.inlined_nodes:
                         self.edges.add(((fr.id, prev), (fr.id, bb), "back"))
+                    elif self.record and prev is not None:
+                        self.back_via_call.add(((fr.id, prev), (fr.id, bb)))
                     backs.append(st)
                 continue
             if region is not None and bb not in region:
@@ -1048,7 +1058,7 @@ class Engine:
                 items = self.merge_items(fr, bb, items)
             if bb in body.loops:
                 for st, prev in items:
-                    if self.record and prev is not None:
+                    if self.record and prev is not None and (fr.id, prev) not in self.inlined_nodes:
                         self.edges.add(((fr.id, prev), (fr.id, bb), "flow"))
                     for (xb, xs, xp) in self.exec_loop(fr, bb, st):
                         if xb == "return":
@@ -1164,7 +1174,7 @@ class Engine:
             merged = False
             for (o, oprev) in out:
                 if self.try_merge(fr, o, st):
-                    if self.record and prev is not None:
+                    if self.record and prev is not None and (fr.id, prev) not in self.inlined_nodes:
                         self.edges.add(((fr.id, prev), (fr.id, bb), "flow"))
                     merged = True
                     break
@@ -1999,6 +2009,7 @@ class Engine:
             ev.inlined = True
         if self.record:
             self.edges.add(((fr.id, bb), (nf.id, 0), "call"))
+            self.inlined_nodes.add((fr.id, bb))
         exits, _ = self.exec_blocks(nf, 0, st, None, None)
         droot, dpath, dti = dest
         outs = []
@@ -2206,6 +2217,7 @@ class Engine:
             ev.callee = cdef
         if self.record:
             self.edges.add(((fr.id, bb), (nf.id, 0), "call"))
+            self.inlined_nodes.add((fr.id, bb))
         exits, _ = self.exec_blocks(nf, 0, st, None, None)
         droot, dpath, dti = dest
         outs = []
